@@ -32,7 +32,7 @@ from typing import Any, Dict, Iterable, List, Optional, Sequence, Tuple
 VERIF = Path(__file__).resolve().parent.parent
 LEAN_DIR = Path(os.environ.get("KRROOD_VERIF_LEAN_DIR", VERIF / "lean"))
 REPO = Path(os.environ.get("KRROOD_VERIF_REPO", "/repo"))
-EVIDENCE_DIR = VERIF / "evidence"
+EVIDENCE_DIR = Path(os.environ.get("KRROOD_VERIF_EVIDENCE_DIR", VERIF / "evidence"))  # redirected when probing seeded changes
 REPLAY_DIR = VERIF / "replays"
 CORPUS_DIR = VERIF / "corpus"
 FINDINGS_FILE = VERIF / "known_findings.json"
